@@ -81,18 +81,38 @@ class ExprMixin:
         return FuncV('lambda', bound=(node, dict(st.vars)))
 
     # ------------------------------------------------------------------ operators
+    def elementwise_items(self, v, st):
+        if isinstance(v, Ref):
+            o = st.heap.get(v.oid)
+            if isinstance(o, ArrObj) and o.pykind == 'ndarray' and o.items is not None and o.shape is None:
+                return o.items
+        return None
+
+    def new_ndarray(self, st, items):
+        oid = st.new_oid('N')
+        st.heap[oid] = ArrObj('any', items=list(items), length=len(items), pykind='ndarray', dtype='float')
+        return Ref(oid)
+
     def ev_UnaryOp(self, node, st):
         v = self.ev(node.operand, st)
+        ev_ = self.elementwise_items(v, st)
+        if ev_ is not None and isinstance(node.op, ast.USub):
+            return self.new_ndarray(st, [self.real_or_num_neg(x) for x in ev_])
         if isinstance(node.op, ast.Not):
             return b_not(truth(v))
         if isinstance(node.op, ast.USub):
             v = self.need_num(v, node)
             if self.lang == 'c' and is_int(v) and not is_cint(v):
                 self.overflow(-zint(v), node, st)
-            return num_neg(v)
+            return self.real_or_num_neg(v)
         if isinstance(node.op, ast.UAdd):
             return v
         raise Unsupported('unary op')
+
+    def real_or_num_neg(self, v):
+        if is_real(v):
+            return -v
+        return num_neg(v)
 
     def ev_BoolOp(self, node, st):
         is_and = isinstance(node.op, ast.And)
@@ -216,6 +236,15 @@ class ExprMixin:
     def binop(self, op, a, b, node, st):
         if isinstance(a, Ptr) or isinstance(b, Ptr):
             return self.ptr_arith(op, a, b, node, st)
+        ea, eb = self.elementwise_items(a, st), self.elementwise_items(b, st)
+        if ea is not None or eb is not None:
+            # NumPy broadcasting of a scalar against a 1-D array / of two equal-length arrays (A3)
+            n = len(ea if ea is not None else eb)
+            if ea is not None and eb is not None and len(ea) != len(eb):
+                raise Unsupported('elementwise operation on arrays of different lengths')
+            items = [self.binop(op, ea[k] if ea is not None else a, eb[k] if eb is not None else b, node, st)
+                     for k in range(n)]
+            return self.new_ndarray(st, items)
         if op is ast.Mult and (isinstance(a, Ref) or isinstance(b, Ref)):
             return self.list_repeat(a, b, node, st)
         if op is ast.Add and isinstance(a, str) and isinstance(b, str):
@@ -346,6 +375,11 @@ class ExprMixin:
         if op is ast.Div:
             self.oblige('div0', y != 0, st, node, 'division by zero')
             return x / y
+        if op is ast.Pow and is_cint(b) and 0 <= b <= 3:
+            r = z3.RealVal(1)
+            for _ in range(b):
+                r = r * x
+            return r
         raise Unsupported('real operator')
 
     def overflow(self, r, node, st):
